@@ -67,8 +67,23 @@ let cmd_merge_peaks rest =
                                 @ List.map q_str p.mdata)) gs))
   | _ -> "BAD"
 
+let q_of_frac n d = { qnum = z_of_int n; qden = pos_of_int d }
+
+(* iof A_num A_den len n data[n] k (fnum fden)[k] *)
+let cmd_iof rest =
+  match ints rest with
+  | an :: ad :: len :: n :: r ->
+      let (data, r) = split n r in
+      let k = List.hd r in
+      let rec fr j l = if j = 0 then [] else
+        (match l with a :: b :: tl -> q_of_frac a b :: fr (j - 1) tl | _ -> failwith "fr") in
+      let fs = fr k (List.tl r) in
+      String.concat " " (List.map q_str (index_of_fraction (q_of_frac an ad) (z_of_int len) (List.map q_of_int data) fs))
+  | _ -> "BAD"
+
 let handle toks =
   match toks with
+  | "iof" :: rest -> cmd_iof rest
   | "sma" :: rest ->
       (match ints rest with
        | w :: n :: r -> pairs (sma (zl (take n r)) (z_of_int w))
